@@ -149,6 +149,16 @@ impl<D: StorageData> Storage<D> {
         self.end_transaction(id)
     }
 
+    /// Ends the transaction `id` and every transaction nested in it
+    /// that was left open by an early error return.
+    pub fn commit_outermost(&mut self, id: u64) -> Result<(), DbError> {
+        if self.transactions > id {
+            self.transactions = id;
+        }
+
+        self.end_transaction(id)
+    }
+
     pub fn copy(&self, name: &str) -> Result<Self, DbError> {
         Ok(Self {
             data: self.data.copy(name)?,
